@@ -1,12 +1,14 @@
 """developer helper: run all tasks of one contracts module, print non-unsat results"""
-import sys, json, time
-sys.path.insert(0, '/verif')
+import sys, json, time, os, tempfile
+HERE = os.path.dirname(os.path.dirname(os.path.abspath(__file__)))
+sys.path.insert(0, HERE)
 import runner
+OUT = os.environ.get("RUN_MOD_OUT") or os.path.join(HERE, "out", "mod")
 mod = __import__("contracts." + sys.argv[1], fromlist=["all_tasks"])
 flt = sys.argv[2] if len(sys.argv) > 2 else ""
 tasks = [t for t in mod.all_tasks() if flt in t.name]
 t0 = time.time()
-recs = runner.run_tasks(tasks, "/verif/out/mod", timeout=10, jobs=16)
+recs = runner.run_tasks(tasks, OUT, timeout=10, jobs=int(os.environ.get("RUN_MOD_JOBS", "16")))
 print(json.dumps(runner.summarize(recs)), f"wall={time.time()-t0:.1f}")
 for r in recs:
     bad = [x for x in r["results"] if x["verdict"] != "unsat"]
